@@ -104,11 +104,12 @@ AllocSector(p) ==
            id == Len(p1.fat)
        IN [p |-> InitSector(SetFat(p1, id, ENDC), id), id |-> id]
 
-RECURSIVE ChainOf(_, _, _)
-ChainOf(p, cur, fuel) ==
-  IF cur = ENDC \/ cur < 0 \/ cur >= Len(p.fat) \/ fuel = 0 THEN <<>>
-  ELSE <<cur>> \o ChainOf(p, p.fat[cur + 1], fuel - 1)
-Chain(p, start) == ChainOf(p, start, Len(p.fat) + 1)
+(* (accumulating form: linear in the chain length, so that megabyte chains can be followed) *)
+RECURSIVE ChainAcc(_, _, _, _)
+ChainAcc(p, cur, fuel, acc) ==
+  IF cur = ENDC \/ cur < 0 \/ cur >= Len(p.fat) \/ fuel = 0 THEN acc
+  ELSE ChainAcc(p, p.fat[cur + 1], fuel - 1, Append(acc, cur))
+Chain(p, start) == ChainAcc(p, start, Len(p.fat) + 1, <<>>)
 LastOf(p, start) == LET c == Chain(p, start) IN c[Len(c)]
 
 ExtendChain(p, start) ==
@@ -123,11 +124,17 @@ FreeSeq(p, secs) ==
 FreeChain(p, start) == FreeSeq(p, Chain(p, start))
 
 (* Chain::write / Chain::set_len growth: one sector at a time; [p, start] *)
-RECURSIVE GrowChain(_, _, _)
+(* (the chain is followed once; `last` and `have` are carried along instead of re-following it *)
+(* for every added sector - the result is the same as extend_chain called n - have times)     *)
+RECURSIVE GrowFrom(_, _, _, _, _)
+GrowFrom(p, start, last, have, n) ==
+  IF have >= n THEN [p |-> p, start |-> start]
+  ELSE LET r == AllocSector(p) IN
+       IF start = ENDC THEN GrowFrom(r.p, r.id, r.id, 1, n)
+       ELSE GrowFrom(SetFat(r.p, last, r.id), start, r.id, have + 1, n)
 GrowChain(p, start, n) ==
-  IF Len(Chain(p, start)) >= n THEN [p |-> p, start |-> start]
-  ELSE IF start = ENDC THEN LET r == AllocSector(p) IN GrowChain(r.p, r.id, n)
-  ELSE GrowChain(ExtendChain(p, start).p, start, n)
+  LET ch == Chain(p, start) IN
+  GrowFrom(p, start, (IF ch = <<>> THEN ENDC ELSE ch[Len(ch)]), Len(ch), n)
 
 (* Chain::set_len *)
 ChainSetLen(p, start, nbytes) ==
@@ -179,11 +186,11 @@ AllocMini(p0) ==
            id == Len(p1.minifat)
        IN [p |-> AppendMiniSector(SetMini(p1, id, ENDC)), id |-> id]
 
-RECURSIVE MiniChainOf(_, _, _)
-MiniChainOf(p, cur, fuel) ==
-  IF cur = ENDC \/ cur < 0 \/ cur >= Len(p.minifat) \/ fuel = 0 THEN <<>>
-  ELSE <<cur>> \o MiniChainOf(p, p.minifat[cur + 1], fuel - 1)
-MiniChain(p, start) == MiniChainOf(p, start, Len(p.minifat) + 1)
+RECURSIVE MiniChainAcc(_, _, _, _)
+MiniChainAcc(p, cur, fuel, acc) ==
+  IF cur = ENDC \/ cur < 0 \/ cur >= Len(p.minifat) \/ fuel = 0 THEN acc
+  ELSE MiniChainAcc(p, p.minifat[cur + 1], fuel - 1, Append(acc, cur))
+MiniChain(p, start) == MiniChainAcc(p, start, Len(p.minifat) + 1, <<>>)
 
 RECURSIVE TrimMini(_)
 TrimMini(p) ==
